@@ -229,6 +229,7 @@ def run_scripts(scripts, mode, seed, concurrent=False):
         sc = S.CUR
         lab = L.Lab(servertype=servertype, poolsize=1 if mode == "thread1" else 3)
         lab.daemon_annotations = {"DDDD": b"d"}
+        lab.annotations_stored = True       # the daemon's hook returns the same dict object every time
         lab.daemon.register(make_target(lab)(), "target")
         for script, ser in scripts:
             lab.base = len(lab.net.socks)
@@ -333,6 +334,7 @@ def run_scripts(scripts, mode, seed, concurrent=False):
                 lab.close()
                 lab = L.Lab(servertype=servertype, poolsize=1 if mode == "thread1" else 3)
                 lab.daemon_annotations = {"DDDD": b"d"}
+                lab.annotations_stored = True
                 lab.daemon.register(make_target(lab)(), "target")
         lab.close()
     if concurrent:
